@@ -147,3 +147,55 @@ def effect_assigns(varname, rhs_pred):
                 return bool(rhs_pred(e.get('r'))), '%s = %s' % (varname, dstr(e.get('r')))
         return False, 'no assignment to %s on the true side' % varname
     return eff
+
+
+def check_prune_recheck(ctx, rid, prog):
+    """Plan::CleanNode: an edge is un-wanted (and the prune propagated through its outputs) only
+    after DependencyScan::RecomputeOutputsDirty has re-examined *that* edge: the call dominates the
+    un-want and the recursion, and the flag tested is the one the call filled in."""
+    from rules import is_enum
+    cn = prog.fn('Plan::CleanNode')
+    rc = list(cn.calls('DependencyScan::RecomputeOutputsDirty'))
+    sites = [e for e in cn.events('asg') if is_enum('Plan::kWantNothing')(e.get('r'))] + list(cn.calls('Plan::CleanNode'))
+    for e in sites:
+        ok = len(rc) == 1 and cn.dominates_ev(rc[0], e) and mentions_var(rc[0].get('args'), 'outputs_dirty')
+        ctx.check(rid, ok, cn.name, 'CleanNode:prune-without-recheck', cn.where(e),
+                  'pruning (un-want / recursion) happens only after the scan re-examined the edge\'s outputs')
+    if not sites:
+        ctx.violation(rid, cn.name, 'CleanNode:no-prune-sites', cn.loc, 'CleanNode has no un-want site')
+
+
+def check_build_exit_codes(ctx, rid, prog):
+    """Builder::Build: the recorded exit code of the first failed command (GetExitCode(), initially
+    ExitSuccess) is returned only where a command failure has been recorded, i.e. behind
+    `failures_allowed == 0` or `failures_allowed < config_.failures_allowed`; every other error
+    exit returns a value that cannot be ExitSuccess."""
+    b = prog.fn('Builder::Build')
+    n = 0
+    def failure_recorded(ef):
+        k = ef[0].replace(' ', '')
+        return ef[1] is True and 'failures_allowed' in k and ('failures_allowed==0' in k or 'failures_allowed<' in k)
+    for e in b.events('ret'):
+        v = e.get('v') if e.get('v') is not None else e.get('e')
+        if not mentions_call(v, 'Builder::GetExitCode') and not mentions_field(v, 'Builder::exit_code_'):
+            continue
+        n += 1
+        r = b.find_path(None, lambda x: x is e, from_succ=b.entry, sensitive=False,
+                        edge_ok=lambda bb, i, s2: not any(failure_recorded(ef) for ef in b.edge_facts(bb, i)))
+        ctx.check(rid, r is None, b.name, 'exit-code:success-on-error-exit', b.where(e),
+                  'GetExitCode() is returned only after a command failure was recorded',
+                  witness=None if r is None else {'blocks': r[0]})
+    if n == 0:
+        ctx.inst(rid, b.loc, 'Builder::Build has no return of the recorded exit code')
+    # the plain success return is not reachable once an error text was stored
+    for e in b.events('ret'):
+        v = strip(e.get('e'))
+        if isinstance(v, dict) and v.get('k') == 'enum' and v.get('n') == 'ExitSuccess':
+            for a in b.events('asg'):
+                l = strip(a['l'])
+                if isinstance(l, dict) and l.get('k') in ('un', 'deref') and mentions_var(l, 'err'):
+                    r = b.find_path(a, lambda x: x is e)
+                    ctx.check(rid, r is None, b.name, 'exit-code:success-after-error-text', b.where(a),
+                              'no path from `*err = ...` to `return ExitSuccess`')
+                    n += 1
+    return n
